@@ -353,6 +353,49 @@ theorem flip_details {a : Nat} {src : Option String} {R : BitRange} {ctx : Optio
   simp only [mkFlip, calcHeuristics]
   cases ctx <;> simp
 
+/-! ## 8. arithmetic side conditions of the Rust code (no overflow, bounded output) -/
+
+/-- `(addr & 0xff) * 0x0101010101010101` in `is_repeated` cannot overflow a `u64`
+    (the harness is built with overflow checks; the model uses unbounded `Nat`). -/
+theorem repeat_mul_no_overflow (v : Nat) : (v % 256) * 0x0101010101010101 ≤ U64MAX := by
+  have : v % 256 ≤ 255 := by omega
+  unfold U64MAX
+  omega
+
+/-- `nearby_registers += 1` runs at most once per valid register, so the `u32` counter cannot
+    overflow for a context with fewer than 2^32 registers. -/
+theorem nearby_le_regs (addr orig : Nat) (nc : Bool) (c : Ctx) :
+    (calcHeuristics addr orig nc (some c)).nearby ≤ c.regs.length := by
+  simp only [calcHeuristics]
+  exact List.length_filter_le _ _
+
+theorem candidatesAt_length_le (a : Nat) (src : Option String) (R : BitRange) (ctx : Option Ctx)
+    (look : Nat → Option Perm) (op : MemOp) (i : Nat) :
+    (candidatesAt a src R ctx look op i).length ≤ 2 := by
+  unfold candidatesAt
+  simp only [List.length_append]
+  split <;> split <;> simp
+
+/-- at most two entries per bit position (NULL and mapped): never more than 128 candidates per
+    examined value. -/
+theorem tryBitFlips_length_le (a : Nat) (src : Option String) (R : BitRange) (ctx : Option Ctx)
+    (look : Nat → Option Perm) (op : MemOp) :
+    (tryBitFlips a src R ctx look op).length ≤ 2 * (R.hi - R.lo) ∧ 2 * (R.hi - R.lo) ≤ 128 := by
+  constructor
+  · unfold tryBitFlips
+    split
+    · simp
+    · have hlen : R.bits.length = R.hi - R.lo := by simp [BitRange.bits]
+      rw [← hlen]
+      generalize R.bits = l
+      induction l with
+      | nil => simp
+      | cons i rest ih =>
+        simp only [List.flatMap_cons, List.length_append, List.length_cons]
+        have := candidatesAt_length_le a src R ctx look op i
+        omega
+  · cases R <;> simp [BitRange.hi, BitRange.lo]
+
 /-! ## non-vacuity: concrete instances of the hypotheses, and the model run on them -/
 
 /-- the map of `test_bit_flip` plus a no-access page and a region ending at `2^64-2` (a
